@@ -49,6 +49,7 @@ class Branch:
 class Prog:
     def __init__(self, kind, branches, handler=None, options=()):
         self.kind, self.branches, self.handler, self.options = kind, list(branches), handler, list(options)
+        self.macro = None       # alias macro name, if the program is to be compiled under one
 
     def render(self):
         s = ' '.join('%s(%s)' % (k, v) for (k, v) in self.options)
@@ -189,9 +190,10 @@ def znum(k):
 class TypedGen:
     """Generates sync-kind programs over Option/Result values."""
 
-    def __init__(self, rng, kind, fail_rate=0.15, cap_rate=0.2, wrap_rate=0.25):
+    def __init__(self, rng, kind, fail_rate=0.15, cap_rate=0.2, wrap_rate=0.25, boom_rate=0.0):
         self.rng, self.kind = rng, kind
-        self.fail_rate, self.cap_rate, self.wrap_rate = fail_rate, cap_rate, wrap_rate
+        self.fail_rate, self.cap_rate, self.wrap_rate, self.boom_rate = fail_rate, cap_rate, wrap_rate, boom_rate
+        self.booms = 0
         self.tab = Table()
         self.names = []         # let names in branch order
         self.step = 0
@@ -255,6 +257,15 @@ class TypedGen:
             cands = ['then_add', 'then_id']
         c = rng.choice(cands)
         fr = self.fail_rate
+        if self.boom_rate and self.booms == 0 and t[0] in ('Opt', 'Res') and t[1] == INT and rng.random() < self.boom_rate:
+            self.booms += 1
+            which = rng.choice(['map', 'and_then', 'or_expr'])
+            if which == 'map':
+                return [Act('Map', [self.call('boom_i', [], 'KPanic', blockable=False)])], t
+            if which == 'and_then':
+                return [Act('AndThen', [self.call('boom_o' if t[0] == 'Opt' else 'boom_r', [], 'KPanic', blockable=False)])], t
+            full = ty_rust(t).replace('<', ' < ').replace('>', ' > ').replace(',', ' , ').split()
+            return [Act('Or', [self.call(['boom_e', ':', ':', '<'] + full + ['>'], [], 'KPanicEval')])], t
         if c == 'map':
             k = rng.randint(1, 5)
             return [Act('Map', [self.call('add', [znum(k)], '(KAdd %d)' % k)])], t
@@ -347,7 +358,10 @@ class TypedGen:
         return acts, t
 
 
-def typed_prog(rng, kind, profile, family=None, handler=None, lets=(), **kw):
+MEET_GROUP = [0]
+
+
+def typed_prog(rng, kind, profile, family=None, handler=None, lets=(), meet=False, **kw):
     """A typed sync-kind program with the given depth profile.  family: 'Opt' | 'Res' for the step-end types."""
     is_try = kind[1] == '1'
     g = TypedGen(rng, kind, **kw)
@@ -380,6 +394,15 @@ def typed_prog(rng, kind, profile, family=None, handler=None, lets=(), **kw):
                 g.tab.ops, g.tab.next = save_ops, save_next
             else:
                 acts, t2 = [], br['t']
+            if meet and sum(1 for d2 in profile if d2 > k) > 1:
+                # every active branch of a multi-branch step first waits until all of them are inside their callbacks
+                nact = sum(1 for d2 in profile if d2 > k)
+                if b == min(b2 for b2, d2 in enumerate(profile) if d2 > k):
+                    MEET_GROUP[0] += 1
+                grp = MEET_GROUP[0]
+                g.noblock = True
+                acts = [Act('Then', [g.call('meet', [[str(grp)], [str(nact)]], 'KId')])] + acts
+                g.noblock = False
             if k > 0:
                 if not acts:
                     acts, t2 = g.chain_ops(br['t'], 1)
